@@ -7,6 +7,7 @@ import (
 	"path/filepath"
 	"runtime/debug"
 	"sort"
+	"strconv"
 	"strings"
 	"sync"
 	"time"
@@ -180,6 +181,8 @@ type Job struct {
 	MaxPaths int
 	MaxDepth int
 	Artificial bool
+	NoSummary  bool        // execute blockHash/blockHashHC bodies instead of their uninterpreted summary
+	Fixed      []TapeEntry // concrete mode (translator validation): inputs bound to these values
 
 	mu          sync.Mutex
 	res         JobResult
@@ -212,6 +215,7 @@ type Tape struct {
 	Kind     string            `json:"kind"` // "counterexample" | "witness" | "known"
 	Known    string            `json:"known,omitempty"`
 	Notes    map[string]uint64 `json:"-"`
+	Summarised bool            `json:"summarised,omitempty"` // path used the uninterpreted hash summary
 }
 
 type TapeExpect struct {
@@ -237,6 +241,7 @@ type PathResult struct {
 	Obligations  int
 	Discharged   int
 	Assumes      int
+	Summaries    int
 	Reached      []string
 	MaxAlloc     int
 	MaxAllocSite string
@@ -272,6 +277,7 @@ type JobResult struct {
 type WorkItem struct {
 	Job    *Job
 	Prefix []Decision
+	Model  map[string]uint64
 }
 
 // ---------- scheduler ----------
@@ -346,6 +352,7 @@ type Worker struct {
 	w      *World
 	infos  map[*ssa.Function]*fnInfo
 	npaths int
+	resetEvery int
 }
 
 func (wk *Worker) switchJob(j *Job) error {
@@ -363,7 +370,7 @@ func (wk *Worker) switchJob(j *Job) error {
 	wk.w = w
 	wk.job = j
 	wk.ts = NewTermStore()
-	wk.sv = NewSolver(wk.ts, "z3", wk.s.timeout)
+	wk.sv = NewSolver(wk.ts, "z3-new", wk.s.timeout)
 	if wk.infos == nil {
 		wk.infos = map[*ssa.Function]*fnInfo{}
 	}
@@ -392,12 +399,55 @@ func (s *Sched) runAll(jobs []*Job, nworkers int) {
 	for i := len(jobs) - 1; i >= 0; i-- {
 		s.stack = append(s.stack, WorkItem{Job: jobs[i]})
 	}
+	if os.Getenv("VERIF_PROGRESS") != "" {
+		stop := make(chan struct{})
+		defer close(stop)
+		go func() {
+			t0 := time.Now()
+			for {
+				select {
+				case <-stop:
+					return
+				case <-time.After(10 * time.Second):
+				}
+				var paths int
+				type jw struct {
+					id string
+					p  int
+					w  time.Duration
+				}
+				var heavy []jw
+				started := 0
+				for _, j := range jobs {
+					j.mu.Lock()
+					paths += j.res.Paths
+					if j.res.Paths > 0 {
+						started++
+					}
+					heavy = append(heavy, jw{j.ID, j.res.Paths, j.res.Wall})
+					j.mu.Unlock()
+				}
+				sort.Slice(heavy, func(a, b int) bool { return heavy[a].w > heavy[b].w })
+				s.mu.Lock()
+				q := len(s.stack)
+				s.mu.Unlock()
+				fmt.Fprintf(os.Stderr, "[progress %4.0fs] jobs started %d/%d paths %d queue %d; heaviest:", time.Since(t0).Seconds(), started, len(jobs), paths, q)
+				for i := 0; i < 4 && i < len(heavy); i++ {
+					fmt.Fprintf(os.Stderr, " %s(%d paths, %.0fs)", heavy[i].id, heavy[i].p, heavy[i].w.Seconds())
+				}
+				fmt.Fprintln(os.Stderr)
+			}
+		}()
+	}
 	var wg sync.WaitGroup
 	for i := 0; i < nworkers; i++ {
 		wg.Add(1)
 		go func() {
 			defer wg.Done()
-			wk := &Worker{s: s}
+			wk := &Worker{s: s, resetEvery: 50}
+			if v := os.Getenv("VERIF_RESET_EVERY"); v != "" {
+				wk.resetEvery, _ = strconv.Atoi(v)
+			}
 			for {
 				it, ok := s.pop()
 				if !ok {
@@ -498,6 +548,12 @@ func (wk *Worker) runPath(it WorkItem) (pr *PathResult, pending []WorkItem, func
 		unwind:   int32(j.Unwind),
 		maxDepth: j.MaxDepth,
 		funcsHit: map[*ssa.Function]bool{},
+		known:    map[*Term]uint64{},
+		model:    it.Model,
+		fixed:    j.Fixed,
+	}
+	if len(it.Prefix) == 0 {
+		ex.model = map[string]uint64{}
 	}
 	if ex.maxSteps == 0 {
 		ex.maxSteps = 50_000_000
@@ -511,9 +567,21 @@ func (wk *Worker) runPath(it WorkItem) (pr *PathResult, pending []WorkItem, func
 	if j.MaxEnum == 0 {
 		j.MaxEnum = 64
 	}
+	wk.sv.where = func() string {
+		w := ""
+		for f := ex.curFrame; f != nil && len(w) < 200; f = f.caller {
+			w += " < " + f.fn.Name()
+		}
+		return fmt.Sprintf("pc=%d defs=%d%s", len(ex.pc), wk.sv.nDefs, w)
+	}
+	wk.ts.subst = map[*Term]*Term{}
 	wk.sv.PopTo(0)
+	wk.npaths++
+	if wk.resetEvery > 0 && wk.npaths%wk.resetEvery == 0 {
+		wk.sv.rebuild()
+	}
 	wk.sv.Push()
-	ex.solverGen = wk.sv.gen
+	ex.solverGen = wk.sv.deaths
 	funcs = map[string]bool{}
 	defer func() {
 		pr.Steps = ex.stats.steps
@@ -572,7 +640,7 @@ func (wk *Worker) runPath(it WorkItem) (pr *PathResult, pending []WorkItem, func
 	return
 }
 
-var initPkgs = []string{"errors", "io", "bytes", "encoding/binary",
+var initPkgs = []string{"errors", "io", "io/ioutil", "bytes", "encoding/binary",
 	modPath + "/internal/lz4errors", modPath + "/internal/xxh32", modPath + "/internal/lz4block",
 	modPath + "/internal/lz4stream", modPath}
 
@@ -665,6 +733,9 @@ func (ex *Exec) runInitFunc(fn *ssa.Function, strict bool) {
 func (ex *Exec) tapeTerms() []*Term {
 	var ts []*Term
 	for _, in := range ex.inputs {
+		if in.Kind == "arrfixed" {
+			continue
+		}
 		if in.Arr != nil {
 			for _, s := range ex.ts.sel[in.Arr.name] {
 				ts = append(ts, s.a, s)
@@ -686,9 +757,13 @@ func (ex *Exec) extractTape(terms []*Term) *Tape {
 		ex.path.Inconclusive = append(ex.path.Inconclusive, "get-value failed: "+ex.sv.lastErr)
 		return nil
 	}
-	tp := &Tape{Job: ex.job.ID, Property: ex.job.Property, Harness: ex.job.Harness, Pkg: ex.job.Pkg, Tags: ex.job.Tags, Params: ex.job.Params}
+	tp := &Tape{Job: ex.job.ID, Property: ex.job.Property, Harness: ex.job.Harness, Pkg: ex.job.Pkg, Tags: ex.job.Tags, Params: ex.job.Params, Summarised: ex.path.Summaries > 0}
 	k := 0
 	for _, in := range ex.inputs {
+		if in.Kind == "arrfixed" {
+			tp.Inputs = append(tp.Inputs, TapeEntry{Name: in.Name, Kind: "arr", Entries: in.Entries})
+			continue
+		}
 		if in.Arr != nil {
 			e := TapeEntry{Name: in.Name, Kind: "arr"}
 			seen := map[uint64]bool{}
@@ -730,7 +805,17 @@ func (ex *Exec) checkViolation(extra ...*Term) (Result, *Tape) {
 	for _, e := range extra {
 		ex.sv.Assert(e)
 	}
+	t0 := time.Now()
 	r := ex.sv.Check()
+	if d := time.Since(t0); d > 300*time.Millisecond && os.Getenv("VERIF_DEBUG") != "" {
+		for _, e := range extra {
+			cs := e.String()
+			if len(cs) > 1500 {
+				cs = cs[:1500]
+			}
+			fmt.Fprintf(os.Stderr, "SLOW assertion query %v: %s\n", d, cs)
+		}
+	}
 	ex.checkSolverAlive()
 	var tp *Tape
 	if r == Sat {
@@ -814,7 +899,7 @@ func (ex *Exec) recordImplicitFailure(id, detail string) {
 			ex.path.Inconclusive = append(ex.path.Inconclusive, fmt.Sprintf("while recording %s: %v", id, r))
 		}
 	}()
-	if ex.sv.gen != ex.solverGen {
+	if ex.sv.deaths != ex.solverGen {
 		return
 	}
 	ex.path.Obligations++
@@ -832,11 +917,11 @@ func (ex *Exec) reach(label string) {
 	ex.path.Reached = append(ex.path.Reached, label)
 	ex.job.mu.Lock()
 	n := ex.job.reachWit[label]
-	if n < 2 {
+	if n < 1 {
 		ex.job.reachWit[label] = n + 1
 	}
 	ex.job.mu.Unlock()
-	if n >= 2 {
+	if n >= 1 {
 		return
 	}
 	r, tp := ex.checkViolation()
